@@ -128,6 +128,13 @@ DIRECTED = [
     b"/[", b"/]", b"/\\", b"/\x7f", b"/\x00", b"", b"/a/./b", b"/a/.", b"/a/..", b"/a/b/..", b"/a/b/../", b"/a./b", b"/a/b.", b"/a/b..",
     b"/.html", b"/..html", b"/a/.hidden", b"/a/..hidden", b"/..%2e", b"/%2e%2e%2e", b"/%2e%2e.", b"/.%2e.", b"/a/%2e%2e", b"/a/%2e",
     b"/cors_fail", b"/./", b"/.//", b"/%2e/", b"/%2e%2f", b"/%2E%2F", b"/%2e%2F%2e%2E%2f", b"/a/%2e%2e/%2e%2e/%2e%2e/secret.txt",
+    # spellings that only become a traversal when something after the check decodes once more, maps separators, or expands the
+    # trailing '/' or '.' (the redirect Prime runs after sanitize_request)
+    b"/%252e%252e/", b"/%252e%252e/index.html", b"/%252e%252e%252f", b"/%252e%252e/secret.", b"/%252e%252e%252fsecret.", b"/a/%252e%252e/%252e%252e/",
+    b"/%252e%252e/%252e%252e/", b"/%252e%252e/%252e%252e/outside.txt", b"/..%5c", b"/..%5c/", b"/..%5csecret.", b"/..\\", b"/a/..%5c..%5csecret.txt",
+    b"/%2e%2e%5csecret.txt", b"/..%255csecret.txt", b"/..%255c", b"/%252e%252e%255csecret.txt", b"/%252e/", b"/%252e%252f", b"/a%252f", b"/a%2f", b"/a%2e",
+    b"/secret%2e", b"/secret%252e", b"/a/%2e", b"/%2e%2e", b"/..", b"/../", b"/...", b"/.../", b"/..;/secret.txt", b"/;/../secret.txt",
+    b"/%2e%2e;/secret.txt", b"/a/..;/..;/secret.txt", b"/.%00./secret.txt", b"/%u002e%u002e/secret.txt", b"/%%32e%%32e/secret.txt",
 ]
 
 
@@ -349,13 +356,29 @@ def poisoned_history(rng, default_ext):
     return reqs
 
 
+# the history of Example ex_history in Properties/C01.v (evaluated there by the Coq kernel): run on the real code and on the
+# extracted model each time, and compared with the value the kernel computed — ties the extraction of PathSanPipe to the kernel
+EX_FILES = [(b"host/public/index.html", b"INDEX"), (b"host/public/a/b.txt", b"AB"), (b"host/secret.txt", b"SECRET"), (b"outside.txt", b"OUTSIDE")]
+EX_HISTORY = [(b"GET", b"/", 0), (b"GET", b"/index.html", 0), (b"GET", b"/../secret.txt", 0), (ALIAS, b"/index.html", b"/%2e%2e/secret.txt"),
+              (b"GET", b"/%2e%2e/secret.txt", 0), (b"GET", b"/%252e%252e/", 0), (b"GET", b"/a/b.txt", 2), (b"GET", b"/./cors_fail", 0)]
+EX_EXPECTED = ("(L (L (N 200) (B %s) (L (B 7066))) (L (N 200) (B %s) (L)) (L (N 400) (B %s) (L)) (L (N 1)) (L (N 400) (B %s) (L)) "
+               "(L (N 404) (B %s) (L (B 7066))) (L (N 403) (B %s) (L)) (L (N 400) (B %s) (L)))"
+               % (b"INDEX".hex(), b"INDEX".hex(), b"ERRPAGE".hex(), b"ERRPAGE".hex(), b"ERRPAGE".hex(), CORS_DENIED.hex(), b"ERRPAGE".hex()))
+
+
+def pinned_case():
+    cfg = xl(xbool(True), xbool(True), xbool(True), xb(b"public"), xlist([xl(xb(a), xb(b)) for a, b in EX_FILES]), xlist([]))
+    ops = [xl(xn(1), xb(t), xb(k)) if m is ALIAS else xl(xb(m), xb(t), xn(k)) for m, t, k in EX_HISTORY]
+    return Case("pathsanpipe.run", xl(cfg, xlist(ops)), "pathsanpipe.spec", {"kind": "pipe-kernel-pinned", "requests": 7, "pinned": EX_EXPECTED})
+
+
 def chunks(l, n):
     return [l[i:i + n] for i in range(0, len(l), n)]
 
 
 def pipe_cases(rng, tier):
     import itertools
-    cases = []
+    cases = [pinned_case()]
     directed = [t for t in DIRECTED if t.startswith(b"/")]
     # 1. the hand-written list through every combination of default extensions / response cache, GET, no Origin header
     for de in (True, False):
@@ -441,11 +464,26 @@ def pipe_spec_ok(c, i, s):
     return True
 
 
+_ALLOWED = {}
+
+
+def _allowed_bodies(c):
+    """contents of the fixture's files below the public directory and the handlers' bodies, read off the case's own input"""
+    cfg = c.x[1][0][1]
+    k = id(cfg)
+    if k not in _ALLOWED:
+        pre = b"host/" + cfg[3][1] + b"/"
+        _ALLOWED[k] = (cfg, {f[1][1][1] for f in cfg[4][1] if f[1][0][1].startswith(pre)} | {h[1][1][1] for h in cfg[5][1]})
+    return _ALLOWED[k][1]
+
+
 def extra_oracle(c, i):
     """model-independent: (a) no sentinel content from outside the public directory in any body; (c) the internal CORS handlers answer
     only when a CORS Prime extension produced the override (never for a request without a foreign Origin / preflight headers)"""
     if c.comp != "pathsanpipe.run":
         return None
+    if "pinned" in c.meta and i != c.meta["pinned"]:
+        return "the real pipeline's answers differ from the value of Example ex_history computed by the Coq kernel: " + i
     rows = _pipe_rows(c, i)
     if rows is None:
         return "malformed pipeline output " + i[:100]
@@ -461,8 +499,8 @@ def extra_oracle(c, i):
         if not may_override and (status in INTERNAL_STATUS or body == CORS_DENIED):
             return "an internal /./cors_* handler answered a request no CORS Prime extension rerouted: " + _req_text(c, idx, r) + \
                 " -> status %d body %r" % (status, body[:80])
-        if status == 200 and not log and not body.startswith(b"PUB:") and not body.startswith(b"HANDLER-"):
-            return "200 with a body that is neither a public file nor a handler's: " + _req_text(c, idx, r) + " -> %r" % body[:80]
+        if status == 200 and body not in _allowed_bodies(c):
+            return "200 with a body that is neither a public file's content nor a handler's: " + _req_text(c, idx, r) + " -> %r" % body[:80]
     return None
 
 
